@@ -629,3 +629,129 @@ def _sp_thunk(lib, st, node):
 def _sp_lam(lib, st, node):
     tf = [m for m in lib.ext.models if type(m).__name__ == "TFModel"][0]
     return VU(tf.lambda_u(st, node.args[0]))
+
+
+# ---------------------------------------------------------------------------
+class OpaqueLibModel(Model):
+    """numpy / flatbuffers / generated flatbuffer API / sys: calls are
+    uninterpreted pure functions of their arguments (LIBCALL / LIBMETH), so
+    code and contract build the same term; their meaning is given by the
+    assumed laws in contracts/c50_writers.py (A-NP, A-FB).  Attributes of
+    opaque values are uninterpreted getters."""
+
+    PREFIXES = ("np.", "numpy.", "flatbuffers.", "fbapi_", "sys.", "sedpack.io."
+                "flatbuffer.shardfile.", "lz4.", "gzip.", "bz2.", "lzma.",
+                "zstd.", "zstandard.")
+
+    def __init__(self, ext):
+        super().__init__(ext)
+        self.LIBCALL = z3.Function("LIBCALL", U, U, U)
+        self.LIBMETH = z3.Function("LIBMETH", U, U, U, U)
+        self.GETATTR = z3.Function("GETATTR", U, U, U)
+
+    def tf(self):
+        return [m for m in self.ext.models if type(m).__name__ == "TFModel"][0]
+
+    def is_lib(self, d):
+        return any(d.startswith(p) for p in self.PREFIXES)
+
+    def dotted_value(self, st, d, node):
+        if d == "sys.byteorder":
+            return VU(z3.Const("SYS_BYTEORDER", U))
+        return None
+
+    def call_dotted(self, st, d, node):
+        eng = self.eng
+        if not self.is_lib(d):
+            return NotImplemented
+        if d.startswith("numpy."):
+            d = "np." + d[len("numpy."):]
+        args, kwargs = eng.eval_args(st, node)
+        tf = self.tf()
+        return VU(self.LIBCALL(eng.strconst(d), tf.pack(st, args, kwargs)))
+
+    def call_other_method(self, st, recv, name, node):
+        eng = self.eng
+        if isinstance(recv, VU) and not getattr(recv, "parts_of", None) and \
+                name not in ("read_text", "mkdir", "is_file", "resolve",
+                             "expanduser", "replace", "is_absolute",
+                             "is_relative_to", "compare", "encode"):
+            args, kwargs = eng.eval_args(st, node)
+            tf = self.tf()
+            return VU(self.LIBMETH(eng.strconst(name), recv.t,
+                                   tf.pack(st, args, kwargs)))
+        return NotImplemented
+
+    def getattr(self, st, obj, attr, line):
+        if isinstance(obj, VU) and attr not in ("parts", "name", "parent",
+                                                "hex"):
+            return VU(self.GETATTR(self.eng.strconst(attr), obj.t))
+        return None
+
+    def len_of(self, st, v, line):
+        if isinstance(v, VU) and not getattr(v, "parts_of", None):
+            f = z3.Function("LENOF", U, IntS)
+            st.assume(f(v.t) >= 0)
+            return VInt(f(v.t))
+        return None
+
+    def slice_assign(self, st, target, v):
+        # buf[a:b] = bytes on an opaque buffer (flatbuffers builder): the
+        # effect is part of the builder's opaque state
+        cont = self.eng.eval(st, target.value)
+        if isinstance(cont, VU):
+            return True
+        return False
+
+    def setattr(self, st, obj, attr, v, line):
+        return False
+
+    def binop(self, st, op, a, b, line):
+        # arithmetic with an opaque integer-valued result (e.g. builder.Head())
+        UINT = z3.Function("UINT", U, IntS)
+        if isinstance(op, (ast.Add, ast.Sub, ast.Mult)):
+            if isinstance(a, VU) and isinstance(b, (VInt, VBool)) and \
+                    not getattr(a, "parts_of", None):
+                a = VInt(UINT(a.t))
+            elif isinstance(b, VU) and isinstance(a, (VInt, VBool)):
+                b = VInt(UINT(b.t))
+            elif isinstance(a, VU) and isinstance(b, VU) and \
+                    isinstance(op, (ast.Add, ast.Sub)) and False:
+                return None
+            else:
+                return None
+            x, y = a.t, b.t
+            return VInt(x + y if isinstance(op, ast.Add) else
+                        x - y if isinstance(op, ast.Sub) else x * y)
+        return None
+
+
+def _sp_libcall(lib, st, node):
+    eng = lib.eng
+    m = [m for m in lib.ext.models if type(m).__name__ == "OpaqueLibModel"][0]
+    tf = m.tf()
+    name = node.args[0].value
+    return VU(m.LIBCALL(eng.strconst(name), tf.sp_args(st, node, 1)))
+
+
+def _sp_libmeth(lib, st, node):
+    eng = lib.eng
+    m = [m for m in lib.ext.models if type(m).__name__ == "OpaqueLibModel"][0]
+    tf = m.tf()
+    name = node.args[0].value
+    recv = eng.coerce(st, eng.eval(st, node.args[1]), "U")
+    return VU(m.LIBMETH(eng.strconst(name), recv, tf.sp_args(st, node, 2)))
+
+
+def _sp_attr(lib, st, node):
+    eng = lib.eng
+    m = [m for m in lib.ext.models if type(m).__name__ == "OpaqueLibModel"][0]
+    name = node.args[0].value
+    recv = eng.coerce(st, eng.eval(st, node.args[1]), "U")
+    if name == "name":      # same reading as in code: .name of an opaque value
+        from .models import PNAME
+        return VU(PNAME(recv))
+    if name == "parent":
+        from .models import PPARENT
+        return VU(PPARENT(recv))
+    return VU(m.GETATTR(eng.strconst(name), recv))
